@@ -131,6 +131,8 @@ def run(ctx):
         case["ignore"] = True if _ % 2 else case["ignore"]
         ctx.hit("residue_stream")
         check(ctx, case, reqs, pend)
+    from props import c03
+    c03.tiny_weights(ctx, prefix="C04")     # a mean is missing when the valid weights sum to ZERO - not when they are merely small
     if ctx.oracle_only:
         return
     for (desc, ret, gv, gm), m in zip(pend, ctx.model.run(reqs)):
